@@ -65,6 +65,7 @@ class TofuWorld:
         self.redirect_spelling = {}   # (h, p) -> host spelling used in the 3x target
         self.speak_first = {}     # (h, p) -> True: TLS 1.2 server that answers before any request
         self.redirect_seq = {}    # (h, p) -> [target | None, ...] for its next connections (overrides redirect)
+        self.fail_once = {}       # (h, p) -> 'rst' | 'close': only the NEXT connection fails, before the handshake
         self.records = []
         self.use_ec = False
         self.cut = 0
@@ -90,6 +91,10 @@ class TofuWorld:
                 peer.send_app(f"20 text/plain\r\nhello from {h}:{p}\n".encode())
             mode = self.reader_mode.get(key, "eager")
             fail = self.fail_mode.get(key)
+            once = self.fail_once.pop(key, None)
+            if once:
+                server.cert_queue.insert(0, server.cert_queue[0] if server.cert_queue else server.cert)
+                return {"script": [("rst",)] if once == "rst" else [("fin",)], "no_tls": True}
             d = {"script": [("wait_line",), ("call", respond), ("close",)]}
             if self.speak_first.get(key) and not fail:
                 # response and close ride in the same flight as the server's Finished
